@@ -122,6 +122,19 @@ DESC = {
  'C19-8': '(round 4) shared `clipSpan` with an inclusive end treats length 0 as a wrap (Fill with width or height 0 paints to the edge; both consoles)',
  'C20-7': '(round 4) `parser.ParseDir` package/file maps ranged over (two or more annotated files in one directory)',
  'C20-8': '(round 4, cooperating sites) `Context.AddRedirect` stores the pointer it is given; `FindRedirects` reuses one struct per function (several annotations on one function)',
+
+ 'C02-7': '(round 4, multi-step) cached `regionEndFrame` fast path refreshed in the jump-into-region branch only, not when jumping over the kernel; the hand-over reset in `reserveEarlyAllocatorFrames` does not clear it (kernel at the start of the first region, early allocations crossing into a second one, replay)',
+ 'C02-8': '(round 4, cooperating sites) new `regionFrameRange` helper computes the last frame as `start + (Length>>12) - 1` (unaligned region start whose fractional parts add up to a page)',
+ 'C04-7': '(round 4, cooperating sites) `pageTableEntry.Set` clears only the address and low flag bits: bits 52-63 of the old entry survive a re-map (page mapped NoExecute, then mapped again without it)',
+ 'C04-8': '(round 4, multi-step + fault) `if err := mapFn(..); err != nil { return err }` in `PageDirectoryTable.Map/Unmap`: the early return skips the restore of slot 511 (inactive space, failing inner operation)',
+ 'C06-7': '(round 4, cooperating sites) fault handler uses `pteForAddress`, which now returns a non-nil entry with `ErrInvalidMapping` for a non-present leaf (CoW page unmapped, then touched: resumed instead of panicking)',
+ 'C06-8': '(round 4, multi-step) package-level `faultEntry` reset only when the walk reaches the last level (CoW fault resolved, page re-armed, then a fault on an address without page tables retargets the OLD entry)',
+ 'C11-7': '(round 4, cooperating sites) per-pass counters zeroed at the top of the resolve loop; `mergeScopeDirectives` relied on seeing the previous pass\'s `relocatedObjects` (tables that need three or more passes)',
+ 'C11-8': '(round 4, multi-step) `newObject` sets `tableHandle` only on fresh pool entries (a first table that frees slots, a second table whose objects land in them are skipped by every pass)',
+ 'C13-7': '(round 4, cooperating sites) enclosing-scope search moved from `Find` into `findRelative`; the `^` branch relied on its downward-only contract (`^NAME` missing in the target scope but present in an ancestor)',
+ 'C13-8': '(round 4, multi-step) one-entry lookup memo invalidated in `newObject`/`append`/`detach` but not by a mid-list `appendAfter`',
+ 'C15-7': '(round 4, multi-step) literal text batched in a package-level buffer that a format ending in `%%` does not flush (the bytes come out at the start of the NEXT call, possibly on another writer)',
+ 'C15-8': '(round 4) `%s` of a `[]byte` goes through `string(b)`: heap allocation for slices longer than 32 bytes (output unchanged)',
 }
 def short(vs):
     out = []
